@@ -90,7 +90,7 @@ def run(res, replay=None):
             order = sorted(range(1, len(gens)), key=lambda i: sum((gens[i][c] - g[c]) ** 2 for c in range(3)))
             for kk in (len(order) - 1, len(order)):
                 cases.append((inp, 0, order[:kk], rng.below(1 << 30)))
-    wd = os.path.join(C.CACHE, "run", "c18")
+    wd = C.rundir("c18")
     os.makedirs(wd, exist_ok=True)
     cf = os.path.join(wd, "clip.cases")
     nperm = 12 if tier == "quick" else 40
